@@ -14,6 +14,8 @@ import (
 	"strings"
 	"time"
 
+	"verif/checker/inl"
+
 	"golang.org/x/tools/go/packages"
 	"golang.org/x/tools/go/ssa"
 	"golang.org/x/tools/go/ssa/ssautil"
@@ -40,6 +42,8 @@ type Prog struct {
 	Files    []string // Go files of the module that were parsed
 	TypeErrs map[string][]string
 	funcs    map[*ssa.Function]bool
+	// NormNotes describes what package inl did to the source before analysis.
+	NormNotes []string
 }
 
 // Load loads dir/... (the module under verification) for one configuration.
@@ -63,7 +67,42 @@ func Load(dir string, cfg Config) (*Prog, error) {
 	if len(pkgs) == 0 {
 		return nil, fmt.Errorf("no packages loaded from %s", dir)
 	}
-	p := &Prog{Dir: dir, Cfg: cfg, Pkgs: map[string]*packages.Package{}, SSAPkgs: map[string]*ssa.Package{}, Initial: pkgs}
+	// Normalise to the reference decomposition: functions the pinned tree does
+	// not have are inlined into their callers (package inl). Nothing happens,
+	// and nothing is loaded twice, when the tree declares no such function.
+	var normNotes, inlined []string
+	if abs, aerr := filepath.Abs(dir); aerr == nil && os.Getenv("VERIF_NOINLINE") == "" && inl.HasUnknown(abs) {
+		var overlay map[string][]byte
+		cur := pkgs
+		for round := 0; round < 6; round++ {
+			next, notes, gone := inl.Normalize(cur, abs, ModPath, overlay)
+			normNotes = notes
+			if next == nil {
+				inlined = gone
+				break
+			}
+			pc2 := &packages.Config{Mode: packages.LoadAllSyntax, Dir: dir, Env: env, Tests: false, Overlay: next}
+			np, lerr := packages.Load(pc2, "./...")
+			if lerr != nil || moduleErrors(np) > moduleErrors(pkgs) {
+				normNotes = append(normNotes, fmt.Sprintf("inlining round %d discarded: the rewritten source does not type-check%s", round+1, firstModuleError(np)))
+				break
+			}
+			overlay, cur = next, np
+			inlined = gone
+		}
+		if d := os.Getenv("VERIF_DUMP_OVERLAY"); d != "" {
+			for name, b := range overlay {
+				os.WriteFile(filepath.Join(d, strings.ReplaceAll(strings.TrimPrefix(name, abs+"/"), "/", "__")), b, 0o644)
+			}
+		}
+		if overlay != nil {
+			pkgs = cur
+			normNotes = append(normNotes, fmt.Sprintf("%d file(s) analysed in normalised form", len(overlay)))
+		} else {
+			inlined = nil
+		}
+	}
+	p := &Prog{Dir: dir, Cfg: cfg, Pkgs: map[string]*packages.Package{}, SSAPkgs: map[string]*ssa.Package{}, Initial: pkgs, NormNotes: normNotes}
 	var errs []string
 	p.TypeErrs = map[string][]string{}
 	packages.Visit(pkgs, nil, func(pk *packages.Package) {
@@ -89,7 +128,56 @@ func Load(dir string, cfg Config) (*Prog, error) {
 		p.SSAPkgs[sp.Pkg.Path()] = sp
 	}
 	p.funcs = ssautil.AllFunctions(prog)
+	if len(inlined) > 0 {
+		dead := map[string]bool{}
+		for _, k := range inlined {
+			dead[k] = true
+		}
+		for f := range p.funcs {
+			top := f
+			for top.Parent() != nil {
+				top = top.Parent()
+			}
+			if top.Pkg == nil {
+				continue
+			}
+			name := top.Name()
+			if recv := top.Signature.Recv(); recv != nil {
+				t := recv.Type()
+				if pt, ok := t.(*types.Pointer); ok {
+					t = pt.Elem()
+				}
+				if nt, ok := t.(*types.Named); ok {
+					name = nt.Obj().Name() + "." + name
+				}
+			}
+			if dead[top.Pkg.Pkg.Path()+":"+name] {
+				delete(p.funcs, f)
+			}
+		}
+		p.NormNotes = append(p.NormNotes, "inlined everywhere and dropped from the analysed program: "+strings.Join(inlined, ", "))
+	}
 	return p, loadErr
+}
+
+func moduleErrors(pkgs []*packages.Package) int {
+	n := 0
+	packages.Visit(pkgs, nil, func(pk *packages.Package) {
+		if strings.HasPrefix(pk.PkgPath, ModPath) {
+			n += len(pk.Errors)
+		}
+	})
+	return n
+}
+
+func firstModuleError(pkgs []*packages.Package) string {
+	out := ""
+	packages.Visit(pkgs, nil, func(pk *packages.Package) {
+		if strings.HasPrefix(pk.PkgPath, ModPath) && len(pk.Errors) > 0 && out == "" {
+			out = ": " + pk.Errors[0].Error()
+		}
+	})
+	return out
 }
 
 // BrokenIn reports type errors in the module packages with the given
@@ -288,6 +376,9 @@ func NewCtx(prop, tier string, p *Prog) *Ctx {
 	if p != nil {
 		c.CfgName = p.Cfg.String()
 		c.NFiles = len(p.Files)
+		for _, n := range p.NormNotes {
+			c.Assume = append(c.Assume, "source normalisation ("+p.Cfg.String()+"): "+n)
+		}
 		for path := range p.Pkgs {
 			if strings.HasPrefix(path, ModPath) {
 				c.NPkgs++
